@@ -303,4 +303,10 @@ def arRun {K} [Add K] [Mul K] [Zero K] (W H : Nat) (amp : K) : List (ArStep K) â
   | [], s => s
   | e :: es, s => arRun W H amp es (arExtrude e.w W H e.A e.B e.idx e.rnd amp s)
 
+/-- a sequence of extrusions, each with the amplitude `sqrt(CnÂ²)` in force at that time (`Cn_squared` changed on the
+running layer between extrusions; `arRun` is the case of a constant amplitude) -/
+def arRunLive {K} [Add K] [Mul K] [Zero K] (W H : Nat) : List (ArStep K Ã— K) â†’ List K â†’ List K
+  | [], s => s
+  | (e, amp) :: es, s => arRunLive W H es (arExtrude e.w W H e.A e.B e.idx e.rnd amp s)
+
 end HcipyVerif.Layer
